@@ -33,6 +33,8 @@ def gen_case(rng, cid, max_len=3, max_depth=2, allow=None, short_prob=0.0,
             for sp in chain:
                 d = sg.dims_out(sp, *d)
             need = None
+            if any(sp[0] == 'angle' and sp[2] for sp in chain):
+                max_eps = 1
         else:
             chain, d = sg.gen_chain(rng, ns, nu, max_len, max_depth, allow)
         if not chain:
